@@ -80,6 +80,8 @@ class InputSplitShuffle : public InputSplit {
   // implement ResetPartition.
   virtual void ResetPartition(unsigned rank, unsigned nsplit) {
     CHECK(nsplit == num_parts_) << "num_parts is not consistent!";
+    // the later shuffle parts (NextRecord / NextChunk / BeforeFirst) must come from the new part as well
+    part_index_ = rank;
     int idx = shuffle_indexes_[0] + rank * num_shuffle_parts_;
     source_->ResetPartition(idx, nsplit * num_shuffle_parts_);
     cur_shuffle_idx_ = 0;
